@@ -52,6 +52,14 @@ func appendNextToken(l *LLk) {
 	l.tkns = append(l.tkns, lexer.Token{Type: lexer.ItemEOF})
 }
 
+// drain consumes the tokens the lexer still has to deliver, so that the lexer
+// goroutine feeding this LLk can run to completion instead of staying blocked
+// on its channel when parsing stops before the end of the input.
+func (l *LLk) drain() {
+	for range l.c {
+	}
+}
+
 // Current returns the current token being processed.
 func (l *LLk) Current() *lexer.Token {
 	return &l.tkns[0]
